@@ -82,7 +82,10 @@ Apply(e, vals) ==
 (* user functions: cache, counters, invocation log *)
 
 \* st = [cache |-> <<[f, a, v]...>>, counts |-> <<n per function>>, calls |-> <<[f, arg, n]...>>]
-EmptySt(env) == [cache |-> <<>>, counts |-> [i \in 1..Len(env.funcs) |-> 0], calls |-> <<>>]
+\* taint: some result so far is only prescribed up to a tolerance (or is not modelled): everything computed
+\* from it is not compared by the trace specifications
+EmptySt(env) == [cache |-> <<>>, counts |-> [i \in 1..Len(env.funcs) |-> 0], calls |-> <<>>, taint |-> FALSE]
+IsAp(o) == "ap" \in DOMAIN o \/ "alt" \in DOMAIN o
 CacheHas(cache, f, a) == \E i \in 1..Len(cache) : cache[i].f = f /\ cache[i].a = a
 CacheGet(cache, f, a) == cache[CHOOSE i \in 1..Len(cache) : cache[i].f = f /\ cache[i].a = a].v
 
@@ -141,7 +144,8 @@ Den(e, env, st) ==
          IF ~a.o.ok THEN a ELSE DoCall(env, a.st, e.n, a.o.v)
     [] OTHER ->
          LET r == DenSeq(Children(e), 1, env, st, <<>>) IN
-         IF ~r.ok THEN [o |-> r.o, st |-> r.st] ELSE [o |-> Apply(e, r.vals), st |-> r.st]
+         IF ~r.ok THEN [o |-> r.o, st |-> r.st]
+         ELSE LET o == Apply(e, r.vals) IN [o |-> o, st |-> IF IsAp(o) THEN [r.st EXCEPT !.taint = TRUE] ELSE r.st]
 
 ----------------------------------------------------------------------------
 (* 2. the small-step machine *)
